@@ -3,6 +3,7 @@ mod crash;
 mod ctl;
 mod elines;
 mod elines2;
+mod etree;
 mod gram;
 mod hist;
 mod tags;
@@ -72,6 +73,7 @@ fn dispatch(prop: &str, tier: &str) -> i32 {
         "C15" => gram::run_c15(tier),
         "C14" => tags::run_c14(tier),
         "C17" => conf::run_c17(tier),
+        "C11" => etree::run_c11(tier),
         "C06" | "C07" | "C08" | "C09" | "C10" => hist::run_property(prop, tier),
         "C02" | "C03" | "C05" => sched::run_property(prop, tier),
         _ => {
@@ -89,6 +91,7 @@ fn dispatch_replay(prop: &str, v: &serde_json::Value) -> bool {
         "U-gram" => gram::replay(v),
         "U-tag" => tags::replay(v),
         "E-conf" => conf::replay(v),
+        "E-tree" => etree::replay(v),
         "H" => hist::replay(v),
         e => {
             eprintln!("unknown engine {e:?} in replay file");
